@@ -96,6 +96,8 @@ SHAPES = [
     ('208', [208003, 1015, 12001, 208000, 1015]),
     ('208-oversize', [208030, 1015, 208000]),
     ('221', [221003, 12001, 1001, 5001, 12001]),
+    ('221-all-classes', [12001, 221007, 10, 1001, 12001, 20011, 1015, 8002, 13, 12001]),
+    ('class-00-elements', [10, 1001, 11, 12, 12001]),
     ('zero-count', [101000, 31001, 12001, 1001]),
     ('nested-delayed', [105000, 31001, 1001, 102000, 31000, 12001, 2001]),
     ('nested-fixed', [103002, 1001, 101003, 12001]),
